@@ -19,6 +19,8 @@ type ImplicitCase struct {
 	// ArgEnv[i]: argument i is declared with an environment variable that holds a value at declaration time
 	// (this changes its initial value, never the spec)
 	ArgEnv []bool `json:"arg_env,omitempty"`
+	// Sub: the command under test is the sub command "sub" of the application instead of its root command
+	Sub bool `json:"sub,omitempty"`
 }
 
 func runOrdered(c *ImplicitCase, spec string, argv []string) (Outcome, string) {
@@ -43,59 +45,71 @@ func runOrderedSeq(c *ImplicitCase, spec string, argv, argv2 []string) (Outcome,
 	WithSwap(&out, func() {
 		app = cli.App("app", "")
 		app.ErrorHandling = flag.ContinueOnError
-		for _, idx := range c.Order {
-			if idx < len(c.D.Opts) {
-				o := c.D.Opts[idx]
-				set := new(bool)
-				env := ""
-				if o.Env {
-					env = EnvName(idx)
-					setenv(env, EnvValue(o))
-				}
-				if o.Bool {
-					v := &BRec{}
-					app.Var(cli.VarOpt{Name: o.DeclName(), Value: v, EnvVar: env, SetByUser: set})
-					hs = append(hs, Holder{Key: c.D.OptKey(idx), Rec: &v.Rec, Set: set})
+		declare := func(cmd *cli.Cmd) {
+			for _, idx := range c.Order {
+				if idx < len(c.D.Opts) {
+					o := c.D.Opts[idx]
+					set := new(bool)
+					env := ""
+					if o.Env {
+						env = EnvName(idx)
+						setenv(env, EnvValue(o))
+					}
+					if o.Bool {
+						v := &BRec{}
+						cmd.Var(cli.VarOpt{Name: o.DeclName(), Value: v, EnvVar: env, SetByUser: set})
+						hs = append(hs, Holder{Key: c.D.OptKey(idx), Rec: &v.Rec, Set: set})
+					} else {
+						v := &Rec{}
+						cmd.Var(cli.VarOpt{Name: o.DeclName(), Value: v, EnvVar: env, SetByUser: set})
+						hs = append(hs, Holder{Key: c.D.OptKey(idx), Rec: v, Set: set})
+					}
+					if env != "" {
+						unsetenv(env)
+					}
 				} else {
+					ai := idx - len(c.D.Opts)
+					a := c.D.Args[ai]
 					v := &Rec{}
-					app.Var(cli.VarOpt{Name: o.DeclName(), Value: v, EnvVar: env, SetByUser: set})
-					hs = append(hs, Holder{Key: c.D.OptKey(idx), Rec: v, Set: set})
+					set := new(bool)
+					env := ""
+					if ai < len(c.ArgEnv) && c.ArgEnv[ai] {
+						env = fmt.Sprintf("VERIF_A_%d", ai)
+						setenv(env, "envarg")
+					}
+					cmd.Var(cli.VarArg{Name: a.Name, Value: v, EnvVar: env, SetByUser: set})
+					if env != "" {
+						unsetenv(env)
+					}
+					hs = append(hs, Holder{Key: c.D.ArgKey(idx - len(c.D.Opts)), Rec: v, Set: set})
 				}
-				if env != "" {
-					unsetenv(env)
+			}
+			cmd.Spec = spec
+			Arm(hs)
+			cmd.Action = func() {
+				out.Accept = true
+				out.Bind = Snapshot(hs)
+				out.Raw = map[string][]string{}
+				for _, h := range hs {
+					out.Raw[h.Key] = append([]string{}, h.Vals()...)
 				}
-			} else {
-				ai := idx - len(c.D.Opts)
-				a := c.D.Args[ai]
-				v := &Rec{}
-				set := new(bool)
-				env := ""
-				if ai < len(c.ArgEnv) && c.ArgEnv[ai] {
-					env = fmt.Sprintf("VERIF_A_%d", ai)
-					setenv(env, "envarg")
-				}
-				app.Var(cli.VarArg{Name: a.Name, Value: v, EnvVar: env, SetByUser: set})
-				if env != "" {
-					unsetenv(env)
-				}
-				hs = append(hs, Holder{Key: c.D.ArgKey(idx - len(c.D.Opts)), Rec: v, Set: set})
 			}
 		}
-		app.Spec = spec
-		app.Action = func() {
-			out.Accept = true
-			out.Bind = Snapshot(hs)
-			out.Raw = map[string][]string{}
-			for _, h := range hs {
-				out.Raw[h.Key] = append([]string{}, h.Vals()...)
-			}
+		full := append([]string{"app"}, argv...)
+		if c.Sub {
+			// "a command": the command under test is a sub command
+			app.Command("sub", "", declare)
+			full = append([]string{"app", "sub"}, argv...)
+		} else {
+			declare(app.Cmd)
 		}
-		if err := app.Run(append([]string{"app"}, argv...)); err != nil {
+		if err := app.Run(full); err != nil {
 			out.HasErr, out.Err = true, err.Error()
 		}
 	})
 	if argv2 != nil && out.Panic == "" {
 		WithSwap(&out2, func() {
+			Arm(hs)
 			app.Action = func() {
 				out2.Accept = true
 				out2.Bind = Snapshot(hs)
@@ -109,7 +123,7 @@ func runOrderedSeq(c *ImplicitCase, spec string, argv, argv2 []string) (Outcome,
 			}
 		})
 	}
-	return out, usageLine(out.Stderr), out2, usageLine(out2.Stderr)
+	return out, usageLine(out.All), out2, usageLine(out2.All)
 }
 
 // explicitSpec assembles "[OPTIONS] ARG1 ARG2 ..." from the statement.
@@ -154,12 +168,17 @@ func CheckC16(c *ImplicitCase, st *Stats) *Violation {
 		return Violf("usage line of the command without spec is %q, with the explicit spec %q it is %q", ui, spec, ue)
 	}
 	want := normWS("Usage: app " + spec)
+	if c.Sub {
+		want = normWS("Usage: app sub " + spec)
+		st.Class("decls:command-under-test-is-a-sub-command")
+	}
 	if ui != want {
 		return Violf("usage line of the command without spec is %q, expected %q", ui, want)
 	}
 	if !HasHelpToken(c.Argv) {
+		// whether the explicit spec itself accepts the command line is C01's claim: only booked here
 		if v := modelAgrees("C16", d, ast, c.Argv, &re, st); v != nil {
-			return v
+			st.Class("deferred-to-C01")
 		}
 	}
 	if c.Argv2 != nil {
